@@ -572,6 +572,27 @@ impl<'a> Norm<'a> {
         }
     }
 
+    /// N9 (hex crate): `<Vec<u8>>::from_hex(A)` ==> `v_from_hex(A)`, `X.encode_hex()` ==> `v_encode_hex(X)` (trait methods of an
+    /// external crate on std types: adapters with uninterpreted text functions)
+    fn n9_hex(&mut self, e: &mut Expr) {
+        if let Expr::Call(c) = e {
+            let f = c.func.to_token_stream().to_string().replace(' ', "");
+            if f == "<Vec<u8>>::from_hex" && c.args.len() == 1 {
+                let a = &c.args[0];
+                *e = parse_quote!(v_from_hex(#a));
+                self.stats.bump("N9.from_hex");
+                return;
+            }
+        }
+        if let Expr::MethodCall(mc) = e {
+            if mc.method == "encode_hex" && mc.args.is_empty() {
+                let r = &mc.receiver;
+                *e = parse_quote!(v_encode_hex(#r));
+                self.stats.bump("N9.encode_hex");
+            }
+        }
+    }
+
     /// N10: `Err(X.into())` ==> `Err((X).into_verr())` (conversion into the unit's one error type)
     fn n10_err_into(&mut self, e: &mut Expr) {
         if let Expr::Call(c) = e {
@@ -1028,6 +1049,7 @@ impl<'a> VisitMut for Norm<'a> {
         self.n9_strviews(e);
         self.n17_nexton(e);
         self.n10_err_into(e);
+        self.n9_hex(e);
     }
 
     fn visit_path_mut(&mut self, p: &mut syn::Path) {
